@@ -239,7 +239,8 @@ PrattAgrees(s) == LET r == Pratt(Render(s)) IN r.ok /\ r.tree = Strip(s) /\ r.ne
 ----------------------------------------------------------------------------
 (* abstract syntax: statements and declarations (docs/parser.md, one production each).  Fields that only    *)
 (* choose between spellings of the same tree (return with / without parentheses, call f; / call f();,       *)
-(* include with / without ";", the else-if keyword, the comma after the last table entry) are presentation: *)
+(* include with / without ";", the else-if keyword, the comma after the last table entry, an empty          *)
+(* parameter list written as () or not at all) are presentation:                                            *)
 (* Render uses them, StripStmt drops them.                                                                  *)
 None == [k |-> "none"]
 Block(ss) == [k |-> "block", stmts |-> ss]
@@ -273,6 +274,9 @@ TProp(key, v) == [key |-> key, value |-> v]
 TableD(n, vt, props, lastComma) == [k |-> "table", name |-> n, vtype |-> vt, props |-> props, lastComma |-> lastComma]
 Param(ty, n) == [type |-> ty, name |-> n]
 SubD(n, params, rt, blk) == [k |-> "sub", name |-> n, params |-> params, rtype |-> rt, block |-> blk]
+\* parens = TRUE writes the parameter list even when it is empty: sub f() { ... }, sub f() STRING { ... }  (presentation)
+SubDP(n, params, rt, blk, parens) == [k |-> "sub", name |-> n, params |-> params, rtype |-> rt, block |-> blk, parens |-> parens]
+HasParens(s) == s.params # <<>> \/ ("parens" \in DOMAIN s /\ s.parens)
 PenaltyboxD(n) == [k |-> "penaltybox", name |-> n]
 RatecounterD(n) == [k |-> "ratecounter", name |-> n]
 Vcl(ds) == [k |-> "vcl", stmts |-> ds]
@@ -330,7 +334,7 @@ RenderStmt(s) ==
                                    \o (IF i < Len(s.props) \/ s.lastComma THEN <<Comma>> ELSE <<>>)])
                           \o <<RB>>
     [] s.k = "sub"     -> <<Kw("sub"), Id(s.name)>>
-                          \o (IF s.params = <<>> THEN <<>>
+                          \o (IF ~HasParens(s) THEN <<>>
                               ELSE <<LP>> \o Cat([i \in 1..Len(s.params) |->
                                                    <<Id(s.params[i].type), Id(s.params[i].name)>>
                                                    \o (IF i < Len(s.params) THEN <<Comma>> ELSE <<>>)]) \o <<RP>>)
@@ -369,7 +373,7 @@ StripStmt(s) ==
     [] s.k \in {"backend", "backendobj", "director"} -> [s EXCEPT !.props = StripStmts(@)]
     [] s.k = "table"   -> [k |-> "table", name |-> s.name, vtype |-> s.vtype,
                            props |-> [i \in 1..Len(s.props) |-> [key |-> s.props[i].key, value |-> Strip(s.props[i].value)]]]
-    [] s.k = "sub"     -> [s EXCEPT !.block = StripStmt(@)]
+    [] s.k = "sub"     -> SubD(s.name, s.params, s.rtype, StripStmt(s.block))
     [] s.k = "vcl"     -> Vcl(StripStmts(s.stmts))
     [] OTHER           -> s
 
